@@ -32,7 +32,9 @@ MANIFEST = {
             'controls for the operations that copy before their first await); a max-workers stream runs comparisons, np_sgn, np_lsb, '
             'np_random_bits, sorting and fixed-point products at m=3 with MPYC_MAXWORKERS = 2 and 3 (array sizes not multiples of the '
             'number of workers, repeated) and records in the evidence that the worker-thread branch of PrimeFieldArray._sqrt ran '
-            '(count of ThreadPoolExecutor submissions).',
+            '(count of ThreadPoolExecutor submissions); the main stream is also run with option --mix32-64bit (m=3, PRSS on/off), and a '
+            'stream of SecInt(64) arrays with the default modulus and user-supplied prime moduli p = 1 and p = 3 (mod 4) checks ==, !=, '
+            'np.equal/not_equal, <, where, all/any, arithmetic against NumPy and secure scalars (m=1, m=3).',
     'note': 'The secure content of the array operations is the scalar protocol applied elementwise (scalar properties are '
             'proved elsewhere); here the theorems are the index maps that transfer them. Correspondence/oracle-only (no '
             'theorem): comparisons and np_sort/np_sgn/np_trunc as protocols (compared with NumPy and with secure scalars), '
